@@ -466,6 +466,13 @@ func checkC03(c *Ctx, r *Report) {
 	// ... and "no initialisation vector is ever used twice": one Transport.Send is one datagram —
 	// the transport does not repeat a packet (and with it its IV) on its own (shared with C09–C11)
 	checkOneWriteOneRead(c, r)
+	// ... across command histories: the buffer every packet is built in is reused, so each request
+	// layer stores every byte it claims — reserved ones included — and reads none first (shared
+	// with C17, C08)
+	checkSerialisersOverwrite(c, r)
+	// "every datagram the library transmits within an established session": whatever method a
+	// caller invokes on the session value is the session's own
+	checkSessionAPIOwnMethods(c, r)
 	checkBufferViews(c, r, "buffer-views")
 
 	// ---- (4) layouts shared with C06
